@@ -73,6 +73,8 @@ pub fn plain_ops(d: Dialect) -> Vec<BinOper> {
         Dialect::Mysql => {
             v.push(BinOper::Custom("REGEXP"));
             v.push(BinOper::Custom("<=>"));
+            // a custom operator that binds looser than NOT and AND
+            v.push(BinOper::Custom("XOR"));
         }
     }
     v
